@@ -1,31 +1,19 @@
 import FranzVerif.Gen.C29
 import FranzVerif.Model.C29
+import FranzVerif.Model.C29Client
+import FranzVerif.Proof.C29Client
 /-! C29 — property theorems (sequence numbers wrap modulo 2^31 in the client and in kfake).
 
-`Gen.C29.incrementSequence` and `Gen.C29K.kfakeSeqMod` are regenerated from /repo on every run, so
-`client_incSeq` and `kfake_modulus` are re-checked against what the source says now. -/
+`Gen.C29.incrementSequence`, `Gen.C29K.kfakeSeqMod` and `Gen.C29S` (every write to a sequence field in
+pkg/kgo, with the value written) are regenerated from /repo on every run, so `client_incSeq`,
+`kfake_modulus`, `client_sites_*` and `client_all_histories` are re-checked against what the source says now. -/
 namespace Props.C29
 open Model.C29
 
 /-- Client: for every `0 ≤ s < 2^31`, `1 ≤ n < 2^31`, `incrementSequence s n = (s+n) mod 2^31`. -/
 theorem client_incSeq (s n : BitVec 32) (hs : s.toNat < 2147483648) (hn1 : 1 ≤ n.toNat) (hn : n.toNat < 2147483648) :
-    (Gen.C29.incrementSequence s n).toNat = (s.toNat + n.toNat) % 2147483648 := by
-  unfold Gen.C29.incrementSequence
-  have h1 : (2147483647#32 - n).toNat = 2147483647 - n.toNat := by
-    rw [BitVec.toNat_sub]; simp; omega
-  have h2 : (2147483647#32 - s).toNat = 2147483647 - s.toNat := by
-    rw [BitVec.toNat_sub]; simp; omega
-  have hslt : BitVec.slt (2147483647#32 - n) s = decide (2147483647 - n.toNat < s.toNat) := by
-    simp only [BitVec.slt, BitVec.toInt_eq_toNat_cond, h1]
-    have : (2 * (2147483647 - n.toNat) < 2 ^ 32) := by omega
-    have : (2 * s.toNat < 2 ^ 32) := by omega
-    simp [*]
-  rw [hslt]
-  by_cases h : 2147483647 - n.toNat < s.toNat
-  · simp only [h, decide_true, if_true]
-    rw [BitVec.toNat_sub, BitVec.toNat_sub, h2]; simp; omega
-  · simp only [h, decide_false, Bool.false_eq_true, if_false]
-    rw [BitVec.toNat_add]; omega
+    (Gen.C29.incrementSequence s n).toNat = (s.toNat + n.toNat) % 2147483648 :=
+  Proof.C29C.incSeq_toNat s n hs hn1 hn
 
 /-- The client result stays a valid sequence number. -/
 theorem client_incSeq_range (s n : BitVec 32) (hs : s.toNat < 2147483648) (hn1 : 1 ≤ n.toNat) (hn : n.toNat < 2147483648) :
@@ -245,5 +233,151 @@ answers its retry with the original offset, and rejects a skipped sequence. -/
 example :
     runWin seqMod {} [⟨0, 2147483646, 1, 100⟩, ⟨0, 2147483647, 2, 101⟩, ⟨0, 2147483647, 2, 103⟩, ⟨0, 1, 1, 103⟩, ⟨0, 3, 1, 104⟩]
       = [.accept, .accept, .dup 101, .accept, .reject] := by decide
+
+
+/-! ### The client's USES of sequence arithmetic (every write to `recBuf.seq`, `recBuf.batch0Seq`, `seqRecBatch.seq`) -/
+
+section Client
+open Model.C29C
+
+/-- Every write to a sequence field found in pkg/kgo has one of the allowed forms:
+`incrementSequence(field, n)`, a copy of a sequence field, the literal 0 under `needSeqReset`.
+(A plain `+` / `+=` / `++` shows up with form `plain-add` and breaks this.) -/
+theorem client_sites_allowed :
+    Gen.C29S.sites.all (fun s => s.form == "inc" || s.form == "copy" || s.form == "zero-at-reset") = true := by
+  decide
+
+/-- The writes are exactly the six the client model accounts for (a new write site, or one that
+disappeared, has to be modelled before the theorems below say anything about the code). -/
+theorem client_sites_known :
+    Gen.C29S.sites.map (·.key) =
+      ["createReq_seq", "finishBatch_batch0Seq", "resetBatchDrainIdx_seq", "tryAddBatch_seq", "tryAddBatch_batch0Seq",
+       "addBatch_seqRecBatch_seq"] := by
+  decide
+
+/-- **Every schedule.** For a partition on which `s` records were already produced (any `0 ≤ s < 2^31`,
+in particular just below the wrap) and any sequence of client operations — buffering batches, draining
+them into requests, success answers, REWINDS (`resetBatchDrainIdx`, i.e. NOT_LEADER / cut connection /
+sink migration), producer-id failures — everything the client model puts on the wire is accepted by
+the chain monitor: no FirstSequence is negative, a new batch starts at `(last.first + last.n) mod 2^31`
+(across the wrap too), a re-sent batch repeats its original `(FirstSequence, NumRecords)` exactly, and
+sequences restart at 0 only with a new epoch after the producer id was failed.
+The model's writes are the regenerated `Gen.C29S` functions. -/
+theorem client_all_histories (s : BitVec 32) (hs : s.toNat < 2147483648) (ops : List Model.C29C.Op) :
+    chainOk ((RecBuf.init s).wire ops) = true :=
+  Proof.C29C.inv_wire ops _ _ (Proof.C29C.inv_init s hs)
+
+/-- What acceptance by the monitor means, 1: every FirstSequence of an accepted history is in `[0, 2^31)`
+and every batch has between 1 and 2^31-1 records. -/
+theorem accepted_nonneg (es : List Ev) (m m' : Mon) (h : m.run es = some m') (e f n : Int) (hmem : Ev.batch e f n ∈ es) :
+    0 ≤ f ∧ f < 2147483648 ∧ 1 ≤ n ∧ n < 2147483648 := by
+  induction es generalizing m with
+  | nil => simp at hmem
+  | cons x xs ih =>
+    simp only [Mon.run] at h
+    cases hx : m.step x with
+    | none => simp [hx] at h
+    | some m1 =>
+      simp only [hx] at h
+      rcases List.mem_cons.1 hmem with hm | hm
+      · subst hm
+        simp only [Mon.step] at hx
+        split at hx
+        · simp at hx
+        · rename_i hc
+          simp [Model.C29C.seqMod] at hc
+          omega
+      · exact ih m1 h hm
+
+/-- newest-first list of `(first, n)` in which every batch starts where its predecessor ended, modulo 2^31 -/
+def Linked : List (Int × Int) → Prop
+  | [] => True
+  | [_] => True
+  | b :: a :: rest => b.1 = (a.1 + a.2) % 2147483648 ∧ Linked (a :: rest)
+
+/-- monitor states reachable from the empty one -/
+def MonWF (m : Mon) : Prop :=
+  Linked m.chain ∧ (m.started = true → ∃ hd tl, m.chain = hd :: tl ∧ m.nextSeq = (hd.1 + hd.2) % 2147483648)
+
+theorem monWF_step (m m' : Mon) (ev : Ev) (hw : MonWF m) (h : m.step ev = some m') : MonWF m' := by
+  cases ev with
+  | reset => simp [Mon.step] at h; subst h; exact hw
+  | batch e f n =>
+    simp only [Mon.step] at h
+    split at h
+    · simp at h
+    · split at h
+      · simp at h; subst h; exact ⟨trivial, fun _ => ⟨(f, n), [], rfl, by simp [Model.C29C.next, Model.C29C.seqMod]⟩⟩
+      · rename_i hst
+        simp at hst
+        split at h
+        · split at h
+          · rename_i hf
+            simp at h hf; subst h
+            obtain ⟨hd, tl, hc, hn⟩ := hw.2 hst
+            refine ⟨?_, fun _ => ⟨(f, n), m.chain, rfl, by simp [Model.C29C.next, Model.C29C.seqMod]⟩⟩
+            show Linked ((f, n) :: m.chain)
+            rw [hc]
+            refine ⟨?_, by rw [← hc]; exact hw.1⟩
+            show f = _
+            rw [hf, hn]
+          · split at h
+            · simp at h; subst h; exact hw
+            · simp at h
+        · split at h
+          · simp at h; subst h; exact ⟨trivial, fun _ => ⟨(0, n), [], rfl, by simp [Model.C29C.next, Model.C29C.seqMod]⟩⟩
+          · simp at h
+
+/-- What acceptance means, 2: after any accepted history the batches of the current epoch, in the order
+of their first transmission, form one chain `first_{i+1} = (first_i + n_i) mod 2^31` — across the wrap. -/
+theorem accepted_chain (es : List Ev) (m : Mon) (h : Mon.run {} es = some m) : Linked m.chain := by
+  have gen : ∀ (es : List Ev) (m0 m1 : Mon), MonWF m0 → m0.run es = some m1 → MonWF m1 := by
+    intro es
+    induction es with
+    | nil => intro m0 m1 hw h; simp [Mon.run] at h; subst h; exact hw
+    | cons x xs ih =>
+      intro m0 m1 hw h
+      simp only [Mon.run] at h
+      cases hx : m0.step x with
+      | none => simp [hx] at h
+      | some m2 => simp only [hx] at h; exact ih m2 m1 (monWF_step m0 m2 x hw hx) h
+  exact (gen es {} m ⟨trivial, by simp⟩ h).1
+
+/-- What acceptance means, 3: under an unchanged epoch an accepted batch that does not continue the
+chain is a re-send: it carries the `(FirstSequence, NumRecords)` of a batch sent before, unchanged. -/
+theorem accepted_resend_exact (m m' : Mon) (e f n : Int) (hst : m.started = true) (he : e = m.epoch)
+    (hf : f ≠ m.nextSeq) (h : m.step (.batch e f n) = some m') : (f, n) ∈ m.chain ∧ m' = m := by
+  simp only [Mon.step] at h
+  split at h
+  · simp at h
+  · simp [hst, he, hf] at h
+    exact ⟨h.1, h.2.symm⟩
+
+/-- What acceptance means, 4: the epoch changes only after a genuine reason, and then restarts at 0. -/
+theorem accepted_new_epoch (m m' : Mon) (e f n : Int) (hst : m.started = true) (he : e ≠ m.epoch)
+    (h : m.step (.batch e f n) = some m') : m.allow = true ∧ f = 0 := by
+  simp only [Mon.step] at h
+  split at h
+  · simp at h
+  · simp [hst, he] at h
+    exact ⟨h.1.1, h.1.2⟩
+
+/-- Non-vacuity (client model, across the wrap): a partition at 2^31-3; a batch of 5 crosses the wrap
+and is acknowledged, a batch of 3 is sent, the leader moves (rewind), the batch is re-sent with its
+original first sequence 2, then a batch of 1 continues at 5. -/
+example :
+    (RecBuf.init 2147483645#32).wire [.buffer 5#32, .drain, .finish, .buffer 3#32, .drain, .rewind, .drain, .finish, .buffer 1#32, .drain]
+      = [.batch 0 2147483645 5, .batch 0 2 3, .batch 0 2 3, .batch 0 5 1] := by decide
+
+/-- Non-vacuity (monitor): that history is accepted; the history of a client whose `batch0Seq` was advanced
+with a plain `+` (re-send at 2 - 2^31) is not; nor is a re-send with a changed record count, nor a silent
+epoch bump. -/
+example : chainOk [.batch 0 2147483645 5, .batch 0 2 3, .batch 0 2 3, .batch 0 5 1] = true := by decide
+example : chainOk [.batch 0 2147483645 5, .batch 0 2 3, .batch 0 (-2147483646) 3] = false := by decide
+example : chainOk [.batch 0 2147483645 5, .batch 0 2 3, .batch 0 2 2] = false := by decide
+example : chainOk [.batch 0 2147483645 5, .batch 1 0 3] = false := by decide
+example : chainOk [.batch 0 2147483645 5, .reset, .batch 1 0 3, .batch 1 3 1] = true := by decide
+
+end Client
 
 end Props.C29
